@@ -152,6 +152,9 @@ type mode struct {
 	sum bool
 	// canon: only the first (shortest/canonical) encoding of the value
 	canon bool
+	// shape: the value comes from the container skeleton family (forms.go): every
+	// structure plan and document variant, default spellings only
+	shape bool
 }
 
 type firstOnly struct{ set encSet }
